@@ -1,6 +1,7 @@
 import Hannibal.Model.Broker
 import Hannibal.Monitor.C09
 import Hannibal.Driver.Parse
+import Hannibal.Monitor.C05
 import Std.Data.HashSet
 /-
   C09 driver: per topic, the broker projection of a trace → is it a run of the broker model (internal moves
@@ -110,7 +111,20 @@ def baccept (ls : List BLabel) (quiescent : Bool) : BVerdict :=
 
 def reprB (l : BLabel) : String := (toString (repr l)).replace "\n" " "
 
+/-- "The broker never keeps a subscriber alive": the holder clause of C05 (`monC05q`: no strong holder left, no
+    stop, no failure => terminated gracefully by quiescence) on every subscriber's own events.  The broker's
+    table, its fan-out and anything else it keeps are not holders the trace knows of. -/
+def subscriberLifetimes (header : String) (lines : List String) : String :=
+  let c := parseCase header lines
+  c.spawns.foldl (fun out sp =>
+    let ls := c.labelsOf sp.a
+    let ctx : MonCtx := { cfg := sp.cfg, h0 := sp.h, k0 := sp.hk, prompt := false }
+    match (monC05q ctx).firstFail (monC05q ctx).init 0 ls with
+    | some k => out ++ s!"monitor[C09]=violation@{k}:subscriber-{sp.a}-alive-without-a-strong-holder "
+    | none => out) ""
+
 def processBrk (header : String) (lines : List String) (showWitness : Bool) : String :=
+  (fun out => out ++ subscriberLifetimes header lines) <|
   [0, 1].foldl (fun out j =>
     let (ls, q, bad) := parseBrk j lines
     let out := if bad.isEmpty then out else out ++ s!"unparsed={bad.length}:{bad.head!} "
